@@ -8,9 +8,35 @@ import sys
 VERIF = os.path.dirname(os.path.dirname(os.path.abspath(__file__)))
 
 
+def in_copy(patch, ids):
+    """evaluate in a private copy of /repo (VERIF_REPO), so that other runs against /repo are not disturbed"""
+    import shutil
+    import tempfile
+    d = tempfile.mkdtemp(prefix="verif-repo-")
+    try:
+        subprocess.run("cd /repo && git archive HEAD | tar -x -C %s" % d, shell=True, check=True)
+        a = subprocess.run(["patch", "-p1", "-s", "-d", d, "-i", patch], capture_output=True, text=True)
+        if a.returncode != 0:
+            print("patch does not apply: " + a.stdout + a.stderr)
+            return 3
+        env = dict(os.environ, VERIF_REPO=d, VERIF_EVIDENCE_DIR=os.path.join(d, ".evidence"), VERIF_REPLAYS_DIR=os.path.join(d, ".replays"))
+        for pid in ids:
+            p = subprocess.run([os.path.join(VERIF, "tools", "check"), pid, "--tier", os.environ.get("VERIF_TIER", "quick")],
+                               capture_output=True, text=True, cwd=VERIF, env=env)
+            lines = [l for l in p.stdout.splitlines() if l.startswith(("VIOLATION", "  ", "MACHINERY", "KNOWN"))]
+            print("== %s exit=%d" % (pid, p.returncode))
+            for l in lines[:8]:
+                print("   " + l[:260])
+    finally:
+        shutil.rmtree(d, ignore_errors=True)
+    return 0
+
+
 def main():
     patch = os.path.abspath(sys.argv[1])
     ids = sys.argv[2:]
+    if os.environ.get("SEED_IN_COPY"):
+        return in_copy(patch, ids)
     st = subprocess.run(["git", "-C", "/repo", "status", "--porcelain"], capture_output=True, text=True).stdout.strip()
     if st:
         print("refusing: /repo has local changes:\n" + st)
